@@ -299,3 +299,9 @@ func restoreCheck(r *Run) {
 	sort.Strings(nil)
 	r.violateLocked([]string{"C24"}, "restore-differs", "database restored from the backup chain %v equals the source at no snapshot timestamp in [%d,%d]; e.g. %s", chain, last.lowTs, last.highTs, firstDiff)
 }
+
+func init() {
+	// see third_party/ristretto/z/verif_hook.go: Stream's 32 MiB producer
+	// buffers start small and grow on demand under simulation
+	z.VerifInitialBufferCap = 64 << 10
+}
